@@ -219,7 +219,8 @@ Example C20_shape_instr :
                       ("register_number", JNum 1)])];
         JObj [("type", JStr "SetLabel"); ("content", JObj [("label", JStr "if_begin")])];
         JObj [("type", JStr "ExtendedExpression");
-              ("content", JObj [("tag", JNum 7); ("reg", JNum 2)])];
+              ("content", JObj [("type", JStr "Mark");
+                                ("content", JObj [("tag", JNum 7); ("reg", JNum 2)])])];
         JObj [("type", JStr "LetBinding");
               ("content",
                 JObj [("let_decl",
